@@ -126,3 +126,11 @@ CHECKS["C18"] = dict(
     text="string_size_unsigned(x) == number of decimal digits for ALL x < 2^64 and string_size(x) for all x > INT64_MIN; for a grid of unit expressions, IToA/UIToA arguments and magnitude labels: for ALL indices i <= len the "
          "i-th character equals the independently generated expected label, the terminator is NUL and sizeof == len+1; labels of distinct units differ (closed).",
     note=TB + "; operator<< (iostream virtual dispatch, locale) is outside; unit expressions enumerated.")
+CHECKS["C20"] = dict(
+    category="translation_validation",
+    technique="solver equivalence (SMT over clang LLVM IR) of each kernel lowered in several build configurations against the c++14 multi-header baseline",
+    text="A seeded subset of the other checks' kernels is lowered at c++14 (baseline), c++17, c++20, and against generated single-file headers (with and without I/O; thorough: random unit subset, double inclusion) "
+         "with no other Au path on the include line; every (kernel, configuration) pair is proved equivalent to the baseline for ALL inputs (same bits, same trap condition); accept/reject parity per kernel and "
+         "'every public header compiles on its own (twice)' are observed as lowering-stage facts.",
+    note=TB + "; clang only (gcc has no IR to encode: the gcc axis is covered only by the differential execution of g++-built kernels in translator validation); fwd-declaration agreement outside.")
+NA["C01"] = NA["C01"]
